@@ -183,4 +183,15 @@ let handle (line : string) : string =
                                 tagged "tracked" (List.map (fun (sp, k) -> List [ Atom (string_of_int (int_of_n sp)); Atom (kind_str k) ]) tracked) ])
      | Err -> "err"
      | Panic -> "panic")
+  | "mprint", [ List items ] ->
+    (* C16: the model of the Display state machines of parse.rs on the dumped parse tree *)
+    let p = List.map item_of items in
+    let ns (x : n) = bytes_of_string (plain x) in
+    quote (string_of_bytes (print_program_machine ns p))
+  | "mwf", [ List items ] ->
+    (* C16: the tree satisfies the hypothesis of C16_print_parse_roundtrip; and the theorem's conclusion, evaluated *)
+    let p = List.map item_of items in
+    let wf = prog_wf p in
+    let rt = (match parse_token_list (tokens_program p) with Some q -> q = erase_program p | None -> false) in
+    Printf.sprintf "(wf %b) (roundtrip %b)" wf rt
   | _ -> "ERR bad front case"
